@@ -49,12 +49,12 @@ Module BinS.
     Variable ops : numops.
     Hypothesis laws : num_laws ops.
 
-    (** ** "matches": same flags, label and shape; payload equal as uiua values *)
+    (** ** "matches": same flags, label and shape; the same payload, bit for bit (numbers in 0..255 may come back as bytes) *)
     Definition hmatch (h h' : hdr) : Prop := flags h' = flags h /\ label h' = label h /\ shape h' = shape h.
     Definition pmatch (p p' : leaf) : Prop :=
       match p, p' with
-      | LNum d, LNum d' => Forall2 (fun n n' => num_eq ops n' n) d d'
-      | LNum d, LByte d' => Forall2 (fun n b => to_int ops n = Some b) d d'
+      | LNum d, LNum d' => d' = d                (* the same bit patterns *)
+      | LNum d, LByte d' => Forall2 (fun n b => to_int ops n = Some b /\ of_int ops b = n) d d'
       | LByte d, LByte d' => d' = d
       | LChar d, LChar d' => d' = d
       | LCplx d, LCplx d' => d' = d
@@ -208,8 +208,9 @@ Module BinS.
         destruct Hwf as [Hlen Hnum]. cbn [write_leaf fst snd].
         assert (Hel : forall n, In n d ->
                   match choose ops d with
-                  | U8 => to_int ops n = Some (read_num ops (choose ops d) (write_num ops (choose ops d) n))
-                  | _ => num_eq ops (read_num ops (choose ops d) (write_num ops (choose ops d) n)) n
+                  | U8 => to_int ops n = Some (read_num ops (choose ops d) (write_num ops (choose ops d) n)) /\
+                          of_int ops (read_num ops (choose ops d) (write_num ops (choose ops d) n)) = n
+                  | _ => read_num ops (choose ops d) (write_num ops (choose ops d) n) = n
                   end) by (intros n Hin; apply (elem_roundtrip ops laws d n Hnum Hin)).
         set (t := choose ops d) in *. clearbody t.
         destruct (ty_code_facts t) as (F1 & F2 & F3 & F4 & F5).
@@ -219,7 +220,8 @@ Module BinS.
           rewrite Forall_forall; intros r Hr; rewrite in_map_iff in Hr; destruct Hr as [n [<- _]]; apply write_num_length].
         cbn [obind]. rewrite map_map.
         destruct t; eexists; (split; [reflexivity|]); (split; [|split; assumption]); cbn [pmatch];
-          apply Forall2_map_in; exact Hel.
+          first [ apply Forall2_map_in; exact Hel
+                | rewrite <- (map_id d) at 2; apply map_ext_in; exact Hel ].
       - (* bytes *)
         destruct Hwf as [Hlen Hb]. cbn [write_leaf fst snd ty_code]. exists (LByte d).
         split; [|split; [reflexivity | split; [reflexivity | lia]]].
